@@ -540,6 +540,31 @@ def main():
 ''', hostile=True, only='C01')
 
 
+P('thread_teardown', '''
+import threading
+DATA = {}
+class Conn:
+    def close(self):
+        self.closed = True
+        DATA.setdefault('closed', []).append(1)
+    def __del__(self):
+        self.close()
+local = threading.local()
+def work(n):
+    # a connection per thread, closed when the thread ends: close() runs while the thread is being taken down
+    local.conn = Conn()
+    return n
+def main():
+    for n in (1, 2):
+        t = threading.Thread(target=work, args=(n,), name='host-%d' % n)
+        t.start()
+        t.join()
+    DATA['threads'] = sorted(type(t).__name__ for t in threading.enumerate())
+    out('teardown', len(DATA.get('closed', [])))
+    return DATA['threads']
+''', threads=True, only='C01')
+
+
 P('near_limit', '''
 import sys, inspect
 DATA = {}
